@@ -180,6 +180,15 @@ def handleSpec (req : Lean.Json) (id : String) : IO Unit := do
     let vs := docs.map fun dl => let d := ofLean dl; if Spec.valid (specFuel schemaL d) doc.defs doc.root d then "1" else "0"
     IO.println s!"{id}\tSPEC\t{"".intercalate vs}"
 
+def handleRoute (req : Lean.Json) (id : String) : IO Unit := do
+  let ms : List SchemaMapping := match req.getObjVal? "mappings" with
+    | .ok (.arr a) => a.toList.map fun m =>
+        { schemaID := getStr m "id", packageName := getStr m "pkg", rootType := getStr m "root", outputName := getStr m "out" }
+    | _ => []
+  let sid := getStr req "schemaID"
+  let r := route ms (getStr req "defOut") (getStr req "defPkg") sid
+  IO.println s!"{id}\tROUTE\t{canon (.str r.fileName)}\t{canon (.str r.pkg)}\t{canon (.str ((rootOverride ms sid).getD ""))}"
+
 def handle (line : String) : IO Unit := do
   match Lean.Json.parse line with
   | .error e => IO.println s!"?\tERR\t{e}"
@@ -192,6 +201,7 @@ def handle (line : String) : IO Unit := do
     | "ident" => handleIdent req id
     | "ref" => handleRef req id
     | "spec" => handleSpec req id
+    | "route" => handleRoute req id
     | other => IO.println s!"{id}\tERR\tunknown op {other}"
     IO.println s!"{id}\tEND"
 
